@@ -9,10 +9,11 @@ two scalars bypassed the stream byte order.  Repaired in /repo (typed `Write<T>`
 below are read from the source on every run.  The byte-order clause for this class is carried by the Ser model
 (`C15_layout`, `C15_cross_host`): the harness presents RowBlockContainer to it as the class of its nine members.
 -/
-import DmlcModel.RowBlock.LoadPrefix
+import DmlcModel.RowBlock.SerBridge
+import DmlcModel.Props.C15
 
 namespace DmlcModel.Props.C15RowBlock
-open DmlcModel DmlcModel.RowBlock
+open DmlcModel DmlcModel.RowBlock DmlcModel.Ser
 
 /-- the source carries the repair: both scalars go through the typed stream functions -/
 theorem C15_rowblock_fix_present :
@@ -39,6 +40,26 @@ theorem C15_rowblock_prefix_determines (iw : Nat) (old : Container) (bs : Bytes)
     (h : load iw old bs = .ok c rest) :
     ∃ pre, bs = pre ++ rest ∧ ∀ tail old', load iw old' (pre ++ tail) = .ok c tail :=
   load_stable C15_rowblock_fix_present.2 iw old bs c rest h
+
+/-- **the image is the serializer's encoding of the class of the nine members**: the RowBlock model's `save` (what
+C13 and the disk cache use) and the Ser model's `encode` (what the C15 theorems are about) agree -/
+theorem C15_rowblock_is_serializer_class (iw : Nat) (c : Container) (h : InRange iw c) :
+    save iw c = encode ⟨true, true⟩ (rbcTy iw) (rbcVal iw c) :=
+  save_eq_encode iw c h
+
+/-- **the image does not depend on the byte order of the host that writes it** (little-endian stream configuration,
+`IndexType` of 4 or 8 bytes): also a big-endian host produces exactly `save iw c` -- all nine members, the two
+trailing scalars included, go through the byte-order aware handlers -/
+theorem C15_rowblock_image_host_independent (hostLE : Bool) (iw : Nat) (hiw : iw = 4 ∨ iw = 8) (c : Container)
+    (h : InRange iw c) : encode ⟨hostLE, true⟩ (rbcTy iw) (rbcVal iw c) = save iw c := by
+  rw [save_eq_encode iw c h]
+  exact Props.C15.C15_layout_host_independent hostLE true true (rbcTy iw) (rbcTy_ok iw hiw).1 (rbcTy_ok iw hiw).2
+    (rbcVal iw c) (rbcVal_wf iw c h)
+
+/-- **a block saved on one host type is loaded on the other** -/
+theorem C15_rowblock_cross_host (hostLE : Bool) (iw : Nat) (hiw : iw = 4 ∨ iw = 8) (c : Container) (h : InRange iw c) :
+    decode ⟨!hostLE, true⟩ (rbcTy iw) (encode ⟨hostLE, true⟩ (rbcTy iw) (rbcVal iw c)) = some (rbcVal iw c, []) :=
+  Props.C15.C15_cross_host hostLE true (rbcTy iw) (rbcTy_ok iw hiw).1 (rbcTy_ok iw hiw).2 (rbcVal iw c) (rbcVal_wf iw c h)
 
 /-- a two-row block with labels and values -/
 def sample : Container :=
